@@ -2,7 +2,7 @@
 # usage: tools/selftest.sh [Cxx ...]   — runs the mutant corpus (must be reported: exit 1) and the
 # neutral corpus (must stay silent: exit 0) for the given properties (default: all) on scratch copies.
 here="$(cd "$(dirname "$0")/.." && pwd)"
-cd "$here"
+cd "$here"; bin/build.sh >/dev/null || exit 2
 props="$*"; [ -z "$props" ] && props=$(ls selftest/mutants selftest/neutral 2>/dev/null | grep '^C' | sort -u)
 fail=0
 run() { # kind prop patch expected
